@@ -139,7 +139,7 @@ def main():
                           lambda Vs: mono_goal(Vs), schemas=("pos", "inv", "unit", "mono")))
 
     # ------------------------------------------------------------ the kernels
-    kinds = ["rw", "iwls", "nuts"] if chk.tier == "quick" else ["rw", "mh", "iwls", "hmc", "nuts"]
+    kinds = ["rw", "mh", "iwls", "hmc", "nuts"]
     for kind in kinds:
         k, sks, et, tie, e_tr, e_st, e_en, rec = kernel_encs(chk, kind)
         nm = type(k).__name__
